@@ -305,7 +305,7 @@ def run(ctx):
     for obs, npairs in core.parallel_map(task, list(range(-1, MAX + 1))):
         ctx.obligations.extend(obs)
         total += npairs
-    ctx.floors.append(("(cell resolution, target) pairs analysed", total, 800))
+    ctx.floor("(cell resolution, target) pairs analysed", total, 800, soft=True)
     # ---- C10.6: the descendants are taken from a list made for this call --------------------------------------------------
     from . import purity
     purity.fresh_result(ctx, "C10.6", "a5.core.serialization.cell_to_children", "the list of descendants that uncompact copies from")
